@@ -231,9 +231,23 @@ func safely(f func()) (panicked bool, val interface{}) {
 }
 
 // showItem is the impl-side canonical rendering (same shape as the driver's showItem).
+// encTwice: what ToBytes returns is the caller's. It is overwritten and the encoding asked for
+// again: the second answer is the one reported (an encoder that hands out a cached slice
+// reports what the caller wrote into it).
+func encTwice(f func() []byte) []byte {
+	b1 := f()
+	if len(b1) == 0 || len(b1) > 1<<20 {
+		return b1
+	}
+	for i := range b1 {
+		b1[i] ^= 0x3C
+	}
+	return f()
+}
+
 func showItem(it ast.ItemNode) string {
 	return fmt.Sprintf("bytes=%s str=%s vars=%s size=%d",
-		hx(keep(it.ToBytes())), hxs(fmt.Sprint(it)), hxList(it.Variables()), it.Size()) + earlierResults()
+		hx(keep(encTwice(it.ToBytes))), hxs(fmt.Sprint(it)), hxList(it.Variables()), it.Size()) + earlierResults()
 }
 
 // handedOut: byte slices the library returned earlier; it must never write to them again
@@ -284,7 +298,7 @@ func showMsg(m *ast.DataMessage) string {
 	}
 	return fmt.Sprintf("name=%s s=%d f=%d w=%d dir=%s sid=%d sys=%s hdr=%s str=%s vars=%s bytes=%s",
 		hxs(m.Name()), m.StreamCode(), m.FunctionCode(), w, hxs(m.Direction()), m.SessionID(),
-		sys, hxs(m.Header()), hxs(m.String()), hxList(m.Variables()), hx(keep(m.ToBytes()))) + earlierResults()
+		sys, hxs(m.Header()), hxs(m.String()), hxList(m.Variables()), hx(keep(encTwice(m.ToBytes)))) + earlierResults()
 }
 
 // implItem builds n and renders it, mapping any panic to PANIC.
